@@ -81,3 +81,60 @@ Fixpoint r2_closing (k : Z * commodity) (rows : list (list str)) : option dec :=
     | None => if r2_is_booking r then (if key_eq_dec (r2_key_of r) k then Some (r2_balance r) else None) else None
     end
   end.
+
+(* ---- revolut (older export): Completed Date, Reference, Paid Out (CUR), Paid In (CUR), Exchange
+   Out, Exchange In, Balance (CUR), Exchange Rate, Category; the statement's currency CUR is
+   named by the header.  Exactly one of Paid Out / Paid In is filled: the account changes by
+   +Paid In resp. -Paid Out in CUR.  A row whose Reference contains "Sold X to Y" (X, Y capitals)
+   is a currency sale: the account also receives the amount of Exchange Out ("<currency>
+   <amount>"); one whose Reference contains "Bought X from Y" a purchase: the account also gives
+   the amount of Exchange In.  Both are booked against the valuation account of the import account
+   (Income:<rest>), every other row against Expenses:TBD.  Balance (CUR) is the balance after the
+   row. *)
+Inductive rv_kind_t := RvPlain | RvSell | RvBuy.
+Definition rv_kind (r : list str) : rv_kind_t :=
+  if rx_anywhere (rx_two_caps_here [83;111;108;100;32]%Z [32;116;111;32]%Z) (field r 1) then RvSell
+  else if rx_anywhere (rx_two_caps_here [66;111;117;103;104;116;32]%Z [32;102;114;111;109;32]%Z) (field r 1) then RvBuy
+  else RvPlain.
+Definition rv_dec (s : str) : option dec := new_from_string (remove_byte 39 s).
+Definition rv_other (f : str) : option (commodity * dec) :=
+  match ufields f with
+  | [c; a] => if valid_name c then match rv_dec a with Some q => Some (c, q) | None => None end else None
+  | _ => None
+  end.
+Definition rv_exchange (r : list str) : option (commodity * dec) :=
+  match rv_kind r with
+  | RvPlain => None
+  | RvSell => rv_other (field r 4)
+  | RvBuy => match rv_other (field r 5) with Some (c, q) => Some (c, neg q) | None => None end
+  end.
+Definition rv_date (r : list str) : Z := date_or0 (parse_d_mon_y (field r 0)).
+Definition rv_signed (r : list str) : dec :=
+  if is_empty (field r 2) then dec_or0 (rv_dec (field r 3)) else neg (dec_or0 (rv_dec (field r 2))).
+Definition rv_balance (r : list str) : dec := dec_or0 (rv_dec (field r 6)).
+Definition rv_wf_row (r : list str) : bool :=
+  len_is r 9 && is_some (parse_d_mon_y (field r 0)) && is_some (rv_dec (field r 6)) &&
+  xorb (is_empty (field r 2)) (is_empty (field r 3)) &&
+  is_some (rv_dec (if is_empty (field r 2) then field r 3 else field r 2)) &&
+  match rv_kind r with RvPlain => true | _ => is_some (rv_exchange r) end.
+Definition rv_fact (cur : commodity) (r : list str) : row_effect :=
+  mkEffect (rv_date r) ((cur, rv_signed r) :: match rv_exchange r with Some x => [x] | None => [] end).
+Definition rv_legs (acct : account) (cur : commodity) (r : list str) : list leg :=
+  match rv_exchange r with
+  | None => [mkLeg tbd_account acct cur (rv_signed r)]
+  | Some (c, q) => [mkLeg (valuation_account_for acct) acct cur (rv_signed r);
+                    mkLeg (valuation_account_for acct) acct c q]
+  end.
+Definition rv_text (r : list str) : str :=
+  trim_space (collapse_ws false (join [32%Z] [field r 1; field r 7; field r 8])).
+
+(* the shape of the output: the transaction of each row, preceded by an assertion of the row's
+   Balance exactly when the row's date differs from the date of the row before it (for the first
+   row: from 1 January of year 1, Go's zero time) *)
+Fixpoint rv_weave (acct : account) (cur : commodity) (prev : Z) (rows : list (list str)) (ts : list txn) : list directive :=
+  match rows, ts with
+  | r :: rows', t :: ts' =>
+    (if Z.eqb (rv_date r) prev then [] else [assertion_of acct (mkBalFact (rv_date r) cur (rv_balance r))]) ++
+    DTxn t :: rv_weave acct cur (rv_date r) rows' ts'
+  | _, _ => []
+  end.
